@@ -20,7 +20,8 @@ def run(rep):
     from beartype.roar import BeartypeConfParamException
     uni = M.Universe()
     import collections.abc as cabc
-    for c in (cabc.Sized, cabc.Collection, cabc.Sequence, cabc.Mapping, cabc.Iterable, bool, int, type, Exception, Warning, True, False, None): uni.const(c)
+    import enum as _enum0
+    for c in (cabc.Sized, cabc.Collection, cabc.Sequence, cabc.Mapping, cabc.Iterable, bool, int, type, Exception, Warning, True, False, None, _enum0.Enum): uni.const(c)
     A = {o: z3.Const('a_' + o, M.Obj) for o in OPTS}
     COLOR = z3.Const('is_color_resolved', M.Obj)
     def m_get_is_color(ex, s, f, args, kw, where): return [(s.ev('get_is_color'), VObj(COLOR))]
@@ -35,13 +36,19 @@ def run(rep):
     scope['_beartype_conf_args_to_conf'] = VGhostMap('confs')
     cm = {mod.get_is_color: m_get_is_color, mod.issue_warning_deprecated_option: m_noop, ct.sanify_conf_kwargs_is_pep484_tower: m_tower,
           mod.die_if_conf_kwargs_invalid: m_die}
-    ex = Exec(uni, scope, call_model=cm, name='BeartypeConf.__new__'); ex.fields_mode = True
+    ex = Exec(uni, scope, call_model=cm, name='BeartypeConf.__new__'); ex.fields_mode = True; ex.ghost_unhashable = True      # the memo table hashes its key: TypeError for an unhashable option value
     args = {'cls': VPy(mod.BeartypeConf)}
     for o in OPTS: args[o] = VObj(A[o])
     for o in ('claw_decoration_position_funcs', 'claw_decoration_position_types', 'is_check_pep557'): args[o] = VPy(None)
     outs = ex.run_function(node, St(), (), args, fobj)
     outs = [('return', s, v) for s, v in outs] + [('raise', s, v) for s, v in ex.raised]
-    axioms = uni.axioms(); prover = discharge.Prover(axioms)
+    axioms = uni.axioms()
+    # hashability of the values validation lets through: booleans, None, classes and enumeration members are hashable; collections and frozen
+    # dictionaries are hashable only if they (and their items) are - which validation does not establish
+    yh = z3.Const('y_hash', M.Obj)
+    import enum as _enum
+    axioms += [z3.ForAll([yh], z3.Implies(z3.Or(M.inst(yh, uni.const(bool)), yh == uni.const(None), M.inst(yh, uni.const(type)), M.inst(yh, uni.const(_enum.Enum))), M.hashable(yh))), M.hashable(COLOR)]
+    prover = discharge.Prover(axioms)
     key_expected = tuple(M.eqc(COLOR if o == 'is_color' else A[o]) for o in OPTS)
     def add(name, hyps, goal, where='', replay=None):
         r = prover.prove(hyps, goal)
@@ -49,7 +56,7 @@ def run(rep):
         if r.status == 'refuted' and replay: d.update(replay(r))
         rep.add(name, r.status, **d)
     for ob in ex.obls: add(f'C17.new.{ob.kind}#{ob.name.rsplit(".", 1)[-1]}', list(ob.pc), ob.goal, ob.where)
-    nret = 0; RT = {}; DOM = {}
+    nret = 0; RT = {}; DOM = {}; other_exc = []; other_cls = set()
     for pi, (kind, s, v) in enumerate(outs):
         evs = list(s.events); pc = list(s.pc); tag = f'path{pi}'
         stores = [e for e in evs if e[0] == 'ghost_store']; gets = [e for e in evs if e[0] == 'ghost_get']
@@ -101,8 +108,20 @@ def run(rep):
                 rep.add(f'C17.new.post.memo.{tag}', 'refuted', backend='structural', where='return path with neither a table hit nor a table store')
         else:
             okc = isinstance(v, VExc) and issubclass(v.cls, BeartypeConfParamException)
-            rep.add(f'C17.new.post.raises_param_exception.{tag}', 'proved' if okc else 'refuted', backend='structural', where=f'raises {getattr(v, "cls", v)}')
+            if okc: rep.add(f'C17.new.post.raises_param_exception.{tag}', 'proved', backend='structural', where=f'raises {getattr(v, "cls", v)}')
+            else:
+                # another exception class: only a violation if the path is feasible (e.g. validated values that are not hashable)
+                other_exc.append(z3.And(*pc)); other_cls.add(getattr(getattr(v, 'cls', None), '__name__', str(v)))
             rep.add(f'C17.new.post.failure_stores_nothing.{tag}', 'proved' if not stores else 'refuted', backend='structural', where='table unchanged on a raising path')
+    if other_exc:
+        def rp(r):
+            import subprocess, sys, os
+            from pyvc import REPO
+            src = "import sys\nfrom beartype import BeartypeConf\nfrom beartype.roar import BeartypeConfParamException\ntry: BeartypeConf(claw_skip_package_names=['numpy']); print('accepted'); sys.exit(0)\nexcept BeartypeConfParamException: print('BeartypeConfParamException'); sys.exit(0)\nexcept Exception as e: print('raised', type(e).__name__, e); sys.exit(1)\n"
+            env = dict(os.environ); env['PYTHONPATH'] = REPO
+            p = subprocess.run([sys.executable, '-c', src], capture_output=True, text=True, env=env, cwd='/')
+            return dict(replay=dict(kind='C17', reproduced=p.returncode == 1, detail="BeartypeConf(claw_skip_package_names=['numpy']): " + p.stdout.strip()[-150:]), replay_script=(f"import subprocess\nenv = dict(os.environ); env['PYTHONPATH'] = {REPO!r}\np = subprocess.run([sys.executable, '-c', {src!r}], env=env, cwd='/')\nsys.exit(p.returncode)\n") if p.returncode == 1 else None)
+        add('C17.new.post.raises_only_param_exception.allpaths', [], z3.Not(z3.Or(*other_exc)), f'no feasible path raises {sorted(other_cls)} ({len(other_exc)} candidate paths): an option value that passed validation never makes the memo lookup fail', replay=rp)
     for o, disj in RT.items():
         # one obligation per option over ALL miss paths: no path on which conf.kwargs[o] differs (modulo ==) from the passed value
         add(f'C17.new.post.roundtrip.{o}.allpaths', [], z3.Not(z3.Or(*disj)), f'conf.kwargs[{o!r}] equals the passed {o} on each of {len(disj)} paths', replay=(lambda r, o=o: replay_roundtrip(o)))
@@ -224,6 +243,53 @@ sys.exit(0 if again is conf else 1)
     rp = dict(kind='C17', reproduced=p.returncode == 1, tried=[dict(out=p.stdout.strip()[:200])], detail=f'{confs.get(opt, "BeartypeConf()")}: BeartypeConf(**conf.kwargs) -> {p.stdout.strip()}')
     return dict(replay=rp, replay_script=src if p.returncode == 1 else None)
 
+ISCOLOR_SRC = """
+import os, sys, warnings
+os.environ['BEARTYPE_IS_COLOR'] = 'True'
+from beartype import BeartypeConf
+from beartype.roar import BeartypeConfParamException
+bad = []
+for v in ('banana', [], 1, 1.0):
+    with warnings.catch_warnings():
+        warnings.simplefilter('ignore')
+        try: BeartypeConf(is_color=v); bad.append((v, 'accepted'))
+        except BeartypeConfParamException: pass
+        except Exception as e: bad.append((v, type(e).__name__))
+print(bad); sys.exit(1 if bad else 0)
+"""
+def is_color_contract(rep):
+    """(F) get_is_color: the contract BeartypeConf.__new__ relies on for uniform rejection - a normal return means the PASSED is_color was
+    the unpassed marker or a tri-state boolean, whatever ${BEARTYPE_IS_COLOR} says (its docstring promises BeartypeConfParamException
+    otherwise).  The environment lookup is an abstract value."""
+    from pyvc import funcmode, model as M, discharge
+    from pyvc.symx import Exec, St, VObj, VPy
+    import beartype._conf._confget as cg
+    fobj, node, _ = funcmode.load('beartype/_conf/_confget.py', 'get_is_color')
+    uni = M.Universe()
+    for c in (bool, type(None), True, False, None): uni.const(c)
+    X = z3.Const('is_color_passed', M.Obj)
+    def m_noop(ex, s, f, a, kw, w): return [(s, VPy(None))]
+    ex = Exec(uni, dict(cg.__dict__), call_model={cg.issue_warning: m_noop, cg.join_delimited_disjunction: m_noop}, name='get_is_color'); ex.fields_mode = True
+    outs = ex.run_function(node, St(), (VObj(X),), {}, fobj)
+    pr = discharge.Prover(uni.axioms())
+    valid = z3.Or(X == uni.const(cg.ARG_VALUE_UNPASSED), X == uni.const(None), M.inst(X, uni.const(bool)))
+    n = 0
+    for i, (s_, v) in enumerate(outs):
+        n += 1
+        # either the passed value is valid, or it is handed back unchanged (BeartypeConf.__new__ then validates it itself: proved there)
+        r = pr.prove(list(s_.pc), z3.Or(valid, ex.obj(v) == X))
+        extra = {}
+        if r.status == 'refuted':
+            import subprocess, sys, os
+            from pyvc import REPO
+            env = dict(os.environ); env['PYTHONPATH'] = REPO
+            p = subprocess.run([sys.executable, '-c', ISCOLOR_SRC], capture_output=True, text=True, env=env, cwd='/')
+            extra = dict(replay=dict(kind='C17', reproduced=p.returncode == 1, detail='with BEARTYPE_IS_COLOR=True: ' + p.stdout.strip()[-200:]),
+                         replay_script=(f"import subprocess\nenv = dict(os.environ); env['PYTHONPATH'] = {REPO!r}\np = subprocess.run([sys.executable, '-c', {ISCOLOR_SRC!r}], env=env, cwd='/')\nsys.exit(p.returncode)\n") if p.returncode == 1 else None)
+        rep.add(f'C17.get_is_color.post.passed_value_valid.path{i}', r.status, time=r.time, backend=r.backend, reason=r.reason, **extra,
+                where='get_is_color() returns normally only if the passed is_color is the unpassed marker, None or a bool - also when the environment variable overrides it')
+    if not n: rep.error('C17.get_is_color: no returning path')
+
 COPY_SRC = """
 import copy, pickle, sys
 from beartype import BeartypeConf, BeartypeStrategy, FrozenDict
@@ -267,6 +333,8 @@ def main(tier, seed):
         rep.dropped += sorted(ex.dropped)
     except Exception:
         rep.error('C17: ' + traceback.format_exc()[-2000:])
+    try: is_color_contract(rep)
+    except Exception: rep.error('C17 is_color_contract: ' + traceback.format_exc()[-1500:])
     try: copies(rep)
     except Exception: rep.error('C17 copies: ' + traceback.format_exc()[-1500:])
     files = ['beartype/_conf/confmain.py', 'beartype/_conf/conftest.py', 'beartype/_conf/_confoverrides.py', 'beartype/_conf/_confget.py']
@@ -275,7 +343,7 @@ def main(tier, seed):
                      'beartype/_util/cls/utilclstest.py:is_type_subclass (inlined)', '18 option properties (structural)'] + [f'{p}@{report.src_hash(p)}' for p in files]
     from pyvc import model as M
     rep.trusted = ['pyvc', 'z3 5.1 / cvc5'] + M.ASSUMED_SEMANTICS + ['dict lookup identifies keys modulo ==/hash (model.eqc); tuple keys componentwise']
-    rep.assumptions = ['assumed contracts: get_is_color returns the resolved tri-state (environment variable adjustment); sanify_conf_kwargs_is_pep484_tower replaces hint_overrides or raises BeartypeConfParamException (see C18); issue_warning_deprecated_option has no effect on the result',
+    rep.assumptions = ['get_is_color: resolved value abstract in the __new__ proof; its validation contract is proved separately (C17.get_is_color.post.*); sanify_conf_kwargs_is_pep484_tower replaces hint_overrides or raises BeartypeConfParamException (see C18); issue_warning_deprecated_option has no effect on the result',
                        'the three deprecated alias parameters are left at None', 'keyword-argument order is irrelevant by the language contract (binding by name)',
                        'thread clause ("from any thread") is the lock ownership obligation of C15', 'the with-statement on _beartype_conf_lock is transparent']
     rep.extra['explanation'] = 'function-mode symbolic execution of the real BeartypeConf.__new__ with all option values symbolic and the memo table a ghost map modulo ==/hash'
